@@ -195,17 +195,22 @@ func (channel *Channel) sendError(err *amqp.Error) {
 	case amqp.ErrorOnConnection:
 		ch := channel.conn.getChannel(0)
 		if ch != nil {
-			ch.SendMethod(&amqp.ConnectionClose{
+			// a connection that has not completed the handshake is dropped together with the close frame
+			ch.sendMethod(&amqp.ConnectionClose{
 				ReplyCode: err.ReplyCode,
 				ReplyText: err.ReplyText,
 				ClassID:   err.ClassID,
 				MethodID:  err.MethodID,
-			})
+			}, channel.conn.status != ConnOpenOK)
 		}
 	}
 }
 
 func (channel *Channel) handleMethod(method amqp.Method) *amqp.Error {
+	if err := channel.checkMethodAllowed(method); err != nil {
+		return err
+	}
+
 	switch method.ClassIdentifier() {
 	case amqp.ClassConnection:
 		return channel.connectionRoute(method)
@@ -222,6 +227,39 @@ func (channel *Channel) handleMethod(method amqp.Method) *amqp.Error {
 	}
 
 	return amqp.NewConnectionError(amqp.NotImplemented, "unable to route method "+method.Name(), method.ClassIdentifier(), method.MethodIdentifier())
+}
+
+// checkMethodAllowed enforces where and when a method may be used: connection-class
+// methods only on channel 0 and in handshake order, every other method only on a
+// non-zero channel of a connection that completed the handshake
+func (channel *Channel) checkMethodAllowed(method amqp.Method) *amqp.Error {
+	isConnectionClass := method.ClassIdentifier() == amqp.ClassConnection
+	if isConnectionClass != (channel.id == 0) {
+		return amqp.NewConnectionError(amqp.CommandInvalid, "method "+method.Name()+" not allowed on this channel", method.ClassIdentifier(), method.MethodIdentifier())
+	}
+
+	if !isConnectionClass {
+		if channel.conn.status != ConnOpenOK {
+			return amqp.NewConnectionError(amqp.ChannelError, "connection is not open", method.ClassIdentifier(), method.MethodIdentifier())
+		}
+		return nil
+	}
+
+	var expected int
+	switch method.(type) {
+	case *amqp.ConnectionStartOk:
+		expected = ConnStart
+	case *amqp.ConnectionTuneOk:
+		expected = ConnTune
+	case *amqp.ConnectionOpen:
+		expected = ConnTuneOK
+	default:
+		return nil
+	}
+	if channel.conn.status != expected {
+		return amqp.NewConnectionError(amqp.CommandInvalid, "method "+method.Name()+" out of handshake order", method.ClassIdentifier(), method.MethodIdentifier())
+	}
+	return nil
 }
 
 func (channel *Channel) handleContentHeader(headerFrame *amqp.Frame) *amqp.Error {
@@ -334,12 +372,15 @@ func (channel *Channel) publishCurrentMessage() *amqp.Error {
 // SendMethod send method to client
 // Method will be packed into frame and send to outgoing channel
 func (channel *Channel) SendMethod(method amqp.Method) {
+	closeAfter := method.ClassIdentifier() == amqp.ClassConnection && method.MethodIdentifier() == amqp.MethodConnectionCloseOk
+	channel.sendMethod(method, closeAfter)
+}
+
+func (channel *Channel) sendMethod(method amqp.Method, closeAfter bool) {
 	var rawMethod = channel.bufferPool.Get()
 	if err := amqp.WriteMethod(rawMethod, method, channel.server.protoVersion); err != nil {
 		log.WithError(err).Error("Error")
 	}
-
-	closeAfter := method.ClassIdentifier() == amqp.ClassConnection && method.MethodIdentifier() == amqp.MethodConnectionCloseOk
 
 	channel.logger.Debug("Outgoing -> " + method.Name())
 
